@@ -469,6 +469,16 @@ def run_join(case, ctx):
                 if canon(got) != canon(exp):
                     ctx.violation(f'join_{kind}|rows|{route}', **info, got=canon(got), expected=canon(exp))
                     continue
+                # one-to-one keys: the same rows must come back when a composite index is declined
+                if len(set(lkeys)) == len(lkeys) and len(set(rkeys)) == len(rkeys) and route != 'index':
+                    ctx.transition()
+                    try:
+                        res1 = getattr(left, 'join_' + kind)(right, left_template='L_{}', right_template='R_{}', fill_value=None, composite_index=False, **kw)
+                        if canon(row_dicts(res1)) != canon(exp):
+                            shared = 'shared-row-labels' if route == 'columns-shared-labels' else 'distinct-row-labels'
+                            ctx.violation(f'join_{kind}|composite_index=False|rows|{shared}', **info, got=canon(row_dicts(res1)), expected=canon(exp))
+                    except Exception as e:
+                        ctx.violation(f'join_{kind}|composite_index=False|raises|{type(e).__name__}', **info, error=repr(e))
                 # each output row is labelled by its source rows (composite label) when both sides contribute labels
                 if route != 'index':
                     gl = [tuple(None if x is None else str(x) for x in t) for t in res.index]
